@@ -1,0 +1,118 @@
+// Verification hooks (cfg(feature = "verif"), add-only): the real `HandshakeService` on its own, over
+// substreams of the harness: the calls `NotificationProtocol` makes on it, one poll at a time, the
+// iteration order of its substream map, and a way to let one negotiation timer expire.
+
+use super::*;
+use crate::substream::VerifIo;
+
+use futures::Stream;
+use parking_lot::RwLock;
+
+/// Outcome of one `poll_next` of the service.
+#[derive(Debug, Clone, Copy, PartialEq, Eq)]
+pub enum VerifHandshakePoll {
+    Pending,
+    /// peer, outbound?, handshake length
+    Negotiated(PeerId, bool, usize),
+    /// peer, outbound?
+    Error(PeerId, bool),
+}
+
+pub struct VerifHandshake {
+    service: negotiation::HandshakeService,
+    codec: crate::codec::ProtocolCodec,
+}
+
+impl VerifHandshake {
+    pub fn new(handshake: Vec<u8>) -> Self {
+        let (config, _handle) = Config::new(
+            ProtocolName::from("/notif/1"),
+            1024usize,
+            handshake.clone(),
+            Vec::new(),
+            false,
+            64,
+            64,
+            true,
+        );
+        Self {
+            service: negotiation::HandshakeService::new(Arc::new(RwLock::new(handshake))),
+            codec: config.codec,
+        }
+    }
+
+    fn substream(&self, peer: PeerId, io: Box<dyn VerifIo>) -> Substream {
+        Substream::new_verif(peer, SubstreamId::from(0usize), io, self.codec.clone())
+    }
+
+    pub fn negotiate_outbound(&mut self, peer: PeerId, io: Box<dyn VerifIo>) {
+        let substream = self.substream(peer, io);
+        self.service.negotiate_outbound(peer, substream);
+    }
+
+    pub fn read_handshake(&mut self, peer: PeerId, io: Box<dyn VerifIo>) {
+        let substream = self.substream(peer, io);
+        self.service.read_handshake(peer, substream);
+    }
+
+    pub fn send_handshake(&mut self, peer: PeerId, io: Box<dyn VerifIo>) {
+        let substream = self.substream(peer, io);
+        self.service.send_handshake(peer, substream);
+    }
+
+    /// Returns whether a substream was removed.
+    pub fn remove_outbound(&mut self, peer: &PeerId) -> bool {
+        self.service.remove_outbound(peer).is_some()
+    }
+
+    pub fn remove_inbound(&mut self, peer: &PeerId) -> bool {
+        self.service.remove_inbound(peer).is_some()
+    }
+
+    pub fn is_empty(&self) -> bool {
+        self.service.is_empty()
+    }
+
+    pub fn contains(&self, peer: &PeerId, outbound: bool) -> bool {
+        self.service.verif_contains(peer, direction(outbound))
+    }
+
+    /// Substreams held plus completed handshakes not yet handed out.
+    pub fn len(&self) -> usize {
+        self.service.verif_len()
+    }
+
+    /// The keys in the order `poll_next` will visit them.
+    pub fn keys_in_order(&self) -> Vec<(PeerId, bool)> {
+        self.service.verif_keys()
+    }
+
+    /// The negotiation timer of the substream expires.
+    pub fn expire(&mut self, peer: &PeerId, outbound: bool) {
+        self.service.verif_expire(peer, direction(outbound));
+    }
+
+    pub fn poll(&mut self) -> VerifHandshakePoll {
+        let waker = futures::task::noop_waker();
+        let mut cx = std::task::Context::from_waker(&waker);
+        match Pin::new(&mut self.service).poll_next(&mut cx) {
+            Poll::Pending | Poll::Ready(None) => VerifHandshakePoll::Pending,
+            Poll::Ready(Some((_, negotiation::HandshakeEvent::Negotiated { peer, handshake, direction, .. }))) =>
+                VerifHandshakePoll::Negotiated(
+                    peer,
+                    direction == negotiation::Direction::Outbound,
+                    handshake.len(),
+                ),
+            Poll::Ready(Some((_, negotiation::HandshakeEvent::NegotiationError { peer, direction }))) =>
+                VerifHandshakePoll::Error(peer, direction == negotiation::Direction::Outbound),
+        }
+    }
+}
+
+fn direction(outbound: bool) -> negotiation::Direction {
+    if outbound {
+        negotiation::Direction::Outbound
+    } else {
+        negotiation::Direction::Inbound
+    }
+}
